@@ -58,11 +58,11 @@ def classes(bban_spec: str):
     pos = 0
     for m in re.finditer(r"(\d+)(!?)([nace])", bban_spec):
         if m.start() != pos or not m.group(2):
-            raise ValueError(f"structure {bban_spec!r}: only fixed-width n/a/c/e elements are specified")
+            raise Unsupported(f"structure {bban_spec!r}: only fixed-width n/a/c/e elements are specified by the sidecar")
         pos = m.end()
         out += [m.group(3)] * int(m.group(1))
     if pos != len(bban_spec):
-        raise ValueError(f"structure {bban_spec!r}: trailing text")
+        raise Unsupported(f"structure {bban_spec!r}: trailing text the sidecar cannot read")
     return out
 
 
